@@ -1580,7 +1580,8 @@ def rule_t(repo, chk):
     chk.clause('C01.t', 'a string of the analysed text that is used as a path may contain a NUL character, for which every file-system call raises '
                         'ValueError (not OSError): (1) the directory listing of path completion (api/file_name.py) is covered by a handler for '
                         'ValueError as well as OSError; (2) sys.path entries detected in the analysed module (inference/sys_path._abs_path) are '
-                        'dropped when they contain NUL, before they can reach open()/stat() through the import machinery')
+                        'dropped when they contain NUL, before they can reach open()/stat() through the import machinery; (3) the fuzzy matcher is a loop, not a '
+                        'recursion per character of the typed name')
     f = repo.find('jedi.api.file_name', 'complete_file_name')
     calls = [c for c in calls_in(f) if norm(c.func) in ('os.scandir', 'os.listdir', 'scandir', 'listdir')]
     chk.floor('C01.t', len(calls), 1, 'the directory listing in complete_file_name')
@@ -1592,6 +1593,10 @@ def rule_t(repo, chk):
         ok = bool(caught & {'ValueError', 'Exception', 'BaseException', '*'}) and bool(caught & {'OSError', 'Exception', 'BaseException', '*'})
         chk.ob('C01.t', ok, c, '`%s` (path built from the string under the cursor) is covered by handlers for OSError and ValueError' % short(c),
                'caught: %s' % sorted(caught))
+    z = repo.find(HELPERS, '_fuzzy_match')
+    rec = [x for x in ast.walk(z) if isinstance(x, ast.Call) and isinstance(x.func, ast.Name) and x.func.id == z.name]
+    chk.ob('C01.t', not rec, z, 'the fuzzy matcher does not recurse once per character of the typed name (RecursionError for a name longer than the stack is deep)',
+           key='fuzzy-not-recursive')
     g = repo.find('jedi.inference.sys_path', '_abs_path')
     p0 = g.args.args[1].arg if len(g.args.args) > 1 else 'str_path'
     uses = [x for x in own_nodes(g) if isinstance(x, ast.Call) and norm(x.func) in ('Path', 'os.path.join', 'os.path.abspath') and any(norm(a) == p0 for a in x.args)]
